@@ -50,6 +50,11 @@ func TestDrv_CmdLoop(t *testing.T) {
 					for i := 0; i < n; i++ { // one attack, no errors: the plot has one series; latency (i+1) ms identifies the record
 						c.rs = append(c.rs, vegeta.Result{Attack: "cl", Seq: uint64(i), Code: 200, Timestamp: time.Unix(1700000000, int64(i)*1e6),
 							Latency: time.Duration(i+1) * time.Millisecond, BytesIn: uint64(r.Intn(5000)), Body: []byte(fmt.Sprint("b", i))})
+						if kind == "encode" && i%2 == 1 { // rich records alternate with sparse ones (a failed hit next to a bare success)
+							c.rs[i].Code, c.rs[i].BytesIn, c.rs[i].Body = 0, 0, nil
+						} else if kind == "encode" {
+							c.rs[i].Code, c.rs[i].Error, c.rs[i].BytesOut, c.rs[i].Headers = 503, "503 Service Unavailable", 17, map[string][]string{"X-I": {fmt.Sprint(i)}}
+						}
 					}
 					k := len(cs)
 					c.fifo = filepath.Join(dir, fmt.Sprintf("cl%d.fifo", k))
@@ -85,6 +90,9 @@ func TestDrv_CmdLoop(t *testing.T) {
 				c.rs = append(c.rs, vegeta.Result{Attack: "cl", Seq: uint64(i), Code: 200, Timestamp: time.Unix(1700000000, int64(i)*1e6),
 					Latency: time.Duration(i+1) * time.Millisecond, BytesIn: uint64(r.Intn(5000)), Body: []byte(fmt.Sprint("b", i)),
 					Headers: map[string][]string{"X-K": {fmt.Sprint("v", i)}}})
+				if i%2 == 1 {
+					c.rs[i].Code, c.rs[i].BytesIn, c.rs[i].Body, c.rs[i].Headers = 0, 0, nil, nil
+				}
 			}
 			data, frames := encodeAll(cd, c.rs)
 			last := frames[n-1-r.Intn(n/3)]
